@@ -1085,6 +1085,436 @@ theorem front_ok_iff (cfg : Cfg) (fs : FS) (builtins : Registry) (root : APath)
     rw [h0, h3] at hperm
     exact hperm.eq_nil
 
+/-! ### the import graph: a circular import is reported iff there is a cycle
+
+The graph: its nodes are the IDL files of the import tree; there is an edge from `f` to `p` when an `@import` line of
+`f` resolves to `p` (`findFile` under the spelling `f` was found under; a self reference counts). Only the search
+`visitOrder` is involved here, not the model. -/
+
+/-- `f` has an `@import` line that resolves to `p` -/
+def ImportsTo (cfg : Cfg) (fs : FS) (V : List Visit) (f p : APath) : Prop :=
+  ∃ s A loads contents, Visit.file f s A loads contents ∈ V ∧
+    ∃ l ∈ loads, l.isImport = true ∧ ∃ c, findFile cfg fs s (filepathText l.lit) = some (c, p)
+
+/-- a chain of one or more edges -/
+inductive ImportChain (E : APath → APath → Prop) : APath → APath → Prop
+  | single {a b : APath} : E a b → ImportChain E a b
+  | tail {a b c : APath} : ImportChain E a b → E b c → ImportChain E a c
+
+/-- the import graph of the program has a cycle -/
+def HasImportCycle (cfg : Cfg) (fs : FS) (V : List Visit) : Prop := ∃ f, ImportChain (ImportsTo cfg fs V) f f
+
+/-- some `@extern` line refers to the file that holds it, under the file's own spelling (reported like a self import) -/
+def HasExternSelf (cfg : Cfg) (fs : FS) (V : List Visit) : Prop :=
+  ∃ f s A loads contents, Visit.file f s A loads contents ∈ V ∧
+    ∃ l ∈ loads, l.isImport = false ∧ ∃ c p, findFile cfg fs s (filepathText l.lit) = some (c, p) ∧ refersToSelf c s = true
+
+def NotText (fs : FS) (q : APath) : Prop := ∃ pos, fs.get q = some (.notText pos)
+
+/-- no visit is `broken`, and every resolving `@import` line of a visited file is an `E`-edge -/
+def EdgesIn (cfg : Cfg) (fs : FS) (E : APath → APath → Prop) (vs : List Visit) : Prop :=
+  (∀ p, Visit.broken p ∉ vs) ∧ ∀ f s A loads c, Visit.file f s A loads c ∈ vs → ∀ l ∈ loads, l.isImport = true →
+    ∀ c' p, findFile cfg fs s (filepathText l.lit) = some (c', p) → E f p
+
+theorem EdgesIn.prefix {cfg : Cfg} {fs : FS} {E : APath → APath → Prop} {a b : List Visit}
+    (h : EdgesIn cfg fs E (a ++ b)) : EdgesIn cfg fs E a :=
+  ⟨fun p hp => h.1 p (List.mem_append_left _ hp),
+   fun f s A loads c hv => h.2 f s A loads c (List.mem_append_left _ hv)⟩
+
+/-- the targets of a visited file's `@import` lines: being imported, finished before, or not IDL text -/
+def VisitBack (cfg : Cfg) (fs : FS) (done : List Visit) : Visit → Prop
+  | .file f s A loads _ => ∀ l ∈ loads, l.isImport = true → ∀ c p, findFile cfg fs s (filepathText l.lit) = some (c, p) →
+      p ∈ A ++ [f] ∨ p ∈ done.filterMap Visit.file? ∨ NotText fs p
+  | _ => True
+
+def BackFrom (cfg : Cfg) (fs : FS) : List Visit → List Visit → Prop
+  | _, [] => True
+  | done, v :: vs => VisitBack cfg fs done v ∧ BackFrom cfg fs (done ++ [v]) vs
+
+theorem backFrom_append (cfg : Cfg) (fs : FS) (done a b : List Visit) :
+    BackFrom cfg fs done (a ++ b) ↔ BackFrom cfg fs done a ∧ BackFrom cfg fs (done ++ a) b := by
+  induction a generalizing done with
+  | nil => simp [BackFrom]
+  | cons v a ih => simp only [List.cons_append, BackFrom, ih, and_assoc, List.append_assoc, List.nil_append]
+
+/-- what a file visit of the tree satisfies: its importers are linked to it by chains of edges, its spelling leads to
+    it, and it is IDL text -/
+def NodeOk (fs : FS) (E : APath → APath → Prop) : Visit → Prop
+  | .file f s A _ _ => (∀ q ∈ A, ImportChain E q f) ∧ SelfOk fs s f ∧ ∃ text, fs.get f = some (.idl text)
+  | _ => True
+
+/-- what a call of the search adds -/
+def TreePost (cfg : Cfg) (fs : FS) (E : APath → APath → Prop) (acc out : VisitAcc) : Prop :=
+  ∃ new, out.2 = acc.2 ++ new ∧ (∀ v ∈ new, NodeOk fs E v) ∧ BackFrom cfg fs acc.2 new ∧ ∀ q ∈ acc.1, q ∈ out.1
+
+def Vis (fs : FS) (sv : List APath) (a : VisitAcc) : Prop :=
+  ∀ q ∈ a.1, q ∈ sv ∨ q ∈ a.2.filterMap Visit.file? ∨ NotText fs q
+
+theorem TreePost.refl (cfg : Cfg) (fs : FS) (E : APath → APath → Prop) (acc : VisitAcc) : TreePost cfg fs E acc acc :=
+  ⟨[], by simp, (fun _ h => by cases h), trivial, fun _ h => h⟩
+
+theorem TreePost.trans {cfg : Cfg} {fs : FS} {E : APath → APath → Prop} {a b c : VisitAcc}
+    (h1 : TreePost cfg fs E a b) (h2 : TreePost cfg fs E b c) : TreePost cfg fs E a c := by
+  obtain ⟨n1, e1, k1, b1, m1⟩ := h1
+  obtain ⟨n2, e2, k2, b2, m2⟩ := h2
+  refine ⟨n1 ++ n2, by rw [e2, e1, List.append_assoc], ?_, ?_, fun q hq => m2 q (m1 q hq)⟩
+  · intro v hv
+    rcases List.mem_append.mp hv with h | h
+    · exact k1 v h
+    · exact k2 v h
+  · rw [backFrom_append, ← e1]; exact ⟨b1, b2⟩
+
+theorem foldl_tree (cfg : Cfg) (fs : FS) (E : APath → APath → Prop) (n : Nat)
+    (ih : ∀ stack file spelled acc, (∀ q ∈ stack, ImportChain E q file) → SelfOk fs spelled file → file ∈ acc.1 →
+      Vis fs (stack ++ [file]) acc → EdgesIn cfg fs E (visitOrder cfg fs n stack file spelled acc).2 →
+      TreePost cfg fs E acc (visitOrder cfg fs n stack file spelled acc)
+        ∧ Vis fs stack (visitOrder cfg fs n stack file spelled acc))
+    (stack0 : List APath) (file spelled : APath) (hchain : ∀ q ∈ stack0, ImportChain E q file)
+    (hself : SelfOk fs spelled file) (ls : List LoadAt)
+    (hedge : ∀ l ∈ ls, l.isImport = true → ∀ c p, findFile cfg fs spelled (filepathText l.lit) = some (c, p) → E file p)
+    (acc : VisitAcc) (hin : file ∈ acc.1) (hvis : Vis fs (stack0 ++ [file]) acc)
+    (hE : EdgesIn cfg fs E (ls.foldl (visitStep cfg fs (visitOrder cfg fs n) (stack0 ++ [file]) spelled) acc).2) :
+    TreePost cfg fs E acc (ls.foldl (visitStep cfg fs (visitOrder cfg fs n) (stack0 ++ [file]) spelled) acc)
+      ∧ Vis fs (stack0 ++ [file]) (ls.foldl (visitStep cfg fs (visitOrder cfg fs n) (stack0 ++ [file]) spelled) acc)
+      ∧ ∀ l ∈ ls, l.isImport = true → ∀ c p, findFile cfg fs spelled (filepathText l.lit) = some (c, p) →
+          p ∈ (ls.foldl (visitStep cfg fs (visitOrder cfg fs n) (stack0 ++ [file]) spelled) acc).1 := by
+  induction ls generalizing acc with
+  | nil => exact ⟨TreePost.refl cfg fs E acc, hvis, fun l hl => by cases hl⟩
+  | cons l ls ihl =>
+    simp only [List.foldl_cons] at hE ⊢
+    -- the step of line `l`
+    have hstep : TreePost cfg fs E acc (visitStep cfg fs (visitOrder cfg fs n) (stack0 ++ [file]) spelled acc l)
+        ∧ Vis fs (stack0 ++ [file]) (visitStep cfg fs (visitOrder cfg fs n) (stack0 ++ [file]) spelled acc l)
+        ∧ (l.isImport = true → ∀ c p, findFile cfg fs spelled (filepathText l.lit) = some (c, p) →
+            p ∈ (visitStep cfg fs (visitOrder cfg fs n) (stack0 ++ [file]) spelled acc l).1) := by
+      obtain ⟨ext, hext⟩ := foldl_visitStep_extends cfg fs (visitOrder cfg fs n)
+        (fun st p s a => visitOrder_extends cfg fs n st p s a) (stack0 ++ [file]) spelled ls
+        (visitStep cfg fs (visitOrder cfg fs n) (stack0 ++ [file]) spelled acc l)
+      rw [hext] at hE
+      have hE1 := hE.prefix
+      clear hE hext
+      cases hfind : findFile cfg fs spelled (filepathText l.lit) with
+      | none =>
+        have : visitStep cfg fs (visitOrder cfg fs n) (stack0 ++ [file]) spelled acc l = acc := by simp [visitStep, hfind]
+        rw [this]
+        exact ⟨TreePost.refl cfg fs E acc, hvis, fun _ c p h => by cases h⟩
+      | some cp =>
+        obtain ⟨c, p⟩ := cp
+        cases hs : refersToSelf c spelled with
+        | true =>
+          have : visitStep cfg fs (visitOrder cfg fs n) (stack0 ++ [file]) spelled acc l = acc := by
+            simp [visitStep, hfind, hs]
+          rw [this]
+          refine ⟨TreePost.refl cfg fs E acc, hvis, fun _ c' p' h => ?_⟩
+          cases h
+          have hp : p = file := by
+            have hs' : (c.spelledAbsolute && c.path == spelled) = true := hs
+            simp only [Bool.and_eq_true, beq_iff_eq] at hs'
+            obtain ⟨_, _, _, _, hq⟩ := findFile_first cfg fs spelled _ c p hfind
+            rw [hs'.2] at hq
+            exact hself p hq
+          rw [hp]; exact hin
+        | false =>
+          cases himp : l.isImport with
+          | true =>
+            by_cases hvp : p ∈ acc.1
+            · have : visitStep cfg fs (visitOrder cfg fs n) (stack0 ++ [file]) spelled acc l = acc := by
+                simp [visitStep, hfind, hs, himp, hvp]
+              rw [this]
+              refine ⟨TreePost.refl cfg fs E acc, hvis, fun _ c' p' h => ?_⟩
+              cases h; exact hvp
+            · have hst : visitStep cfg fs (visitOrder cfg fs n) (stack0 ++ [file]) spelled acc l
+                  = visitOrder cfg fs n (stack0 ++ [file]) p c.path (acc.1 ++ [p], acc.2) := by
+                simp [visitStep, hfind, hs, himp, hvp]
+              rw [hst] at hE1 ⊢
+              have hEp : E file p := hedge l (by simp) himp c p hfind
+              have hchain' : ∀ q ∈ stack0 ++ [file], ImportChain E q p := by
+                intro q hq
+                simp only [List.mem_append, List.mem_singleton] at hq
+                rcases hq with hq | hq
+                · exact .tail (hchain q hq) hEp
+                · subst hq; exact .single hEp
+              have hvis' : Vis fs (stack0 ++ [file] ++ [p]) (acc.1 ++ [p], acc.2) := by
+                intro q hq
+                simp only [List.mem_append, List.mem_singleton] at hq
+                rcases hq with hq | hq
+                · rcases hvis q hq with h | h | h
+                  · exact Or.inl (List.mem_append_left _ h)
+                  · exact Or.inr (Or.inl h)
+                  · exact Or.inr (Or.inr h)
+                · subst hq; exact Or.inl (by simp)
+              obtain ⟨⟨new, e1, k1, b1, m1⟩, hv1⟩ := ih (stack0 ++ [file]) p c.path (acc.1 ++ [p], acc.2) hchain'
+                (SelfOk.found cfg fs spelled _ c p hfind) (by simp) hvis' hE1
+              refine ⟨⟨new, e1, k1, b1, fun q hq => m1 q (by simp [hq])⟩, hv1, fun _ c' p' h => ?_⟩
+              cases h; exact m1 p (by simp)
+          | false =>
+            cases hg : fs.get p with
+            | none =>
+              have : visitStep cfg fs (visitOrder cfg fs n) (stack0 ++ [file]) spelled acc l = acc := by
+                simp [visitStep, hfind, hs, himp, hg]
+              rw [this]
+              exact ⟨TreePost.refl cfg fs E acc, hvis, fun h => by cases h⟩
+            | some fc =>
+              cases fc with
+              | ext defs =>
+                have : visitStep cfg fs (visitOrder cfg fs n) (stack0 ++ [file]) spelled acc l
+                    = (acc.1, acc.2 ++ [.extern p defs]) := by
+                  simp [visitStep, hfind, hs, himp, hg]
+                rw [this]
+                refine ⟨⟨[.extern p defs], rfl, fun v hv => ?_, ⟨trivial, trivial⟩, fun _ h => h⟩, ?_, fun h => by cases h⟩
+                · simp only [List.mem_singleton] at hv; subst hv; trivial
+                · intro q hq
+                  rcases hvis q hq with h | h | h
+                  · exact Or.inl h
+                  · exact Or.inr (Or.inl (by simpa [List.filterMap_append, Visit.file?] using h))
+                  · exact Or.inr (Or.inr h)
+              | idl text =>
+                have : visitStep cfg fs (visitOrder cfg fs n) (stack0 ++ [file]) spelled acc l = acc := by
+                  simp [visitStep, hfind, hs, himp, hg]
+                rw [this]
+                exact ⟨TreePost.refl cfg fs E acc, hvis, fun h => by cases h⟩
+              | badExt =>
+                have : visitStep cfg fs (visitOrder cfg fs n) (stack0 ++ [file]) spelled acc l = acc := by
+                  simp [visitStep, hfind, hs, himp, hg]
+                rw [this]
+                exact ⟨TreePost.refl cfg fs E acc, hvis, fun h => by cases h⟩
+              | notText pos =>
+                have : visitStep cfg fs (visitOrder cfg fs n) (stack0 ++ [file]) spelled acc l = acc := by
+                  simp [visitStep, hfind, hs, himp, hg]
+                rw [this]
+                exact ⟨TreePost.refl cfg fs E acc, hvis, fun h => by cases h⟩
+    obtain ⟨ht1, hv1, hl1⟩ := hstep
+    have hin1 : file ∈ (visitStep cfg fs (visitOrder cfg fs n) (stack0 ++ [file]) spelled acc l).1 := by
+      obtain ⟨_, _, _, _, m⟩ := ht1; exact m file hin
+    obtain ⟨ht2, hv2, hl2⟩ := ihl (fun l' hl' => hedge l' (List.mem_cons_of_mem _ hl')) _ hin1 hv1 hE
+    refine ⟨ht1.trans ht2, hv2, fun l' hl' himp c p hf => ?_⟩
+    rcases List.mem_cons.mp hl' with rfl | hl'
+    · obtain ⟨_, _, _, _, m⟩ := ht2
+      exact m p (hl1 himp c p hf)
+    · exact hl2 l' hl' himp c p hf
+
+theorem visitOrder_tree (cfg : Cfg) (fs : FS) (E : APath → APath → Prop) (n : Nat) :
+    ∀ stack file spelled acc, (∀ q ∈ stack, ImportChain E q file) → SelfOk fs spelled file → file ∈ acc.1 →
+      Vis fs (stack ++ [file]) acc → EdgesIn cfg fs E (visitOrder cfg fs n stack file spelled acc).2 →
+      TreePost cfg fs E acc (visitOrder cfg fs n stack file spelled acc)
+        ∧ Vis fs stack (visitOrder cfg fs n stack file spelled acc) := by
+  induction n with
+  | zero =>
+    intro stack file spelled acc _ _ _ _ hE
+    exact absurd (by simp [visitOrder]) (hE.1 file)
+  | succ n ih =>
+    intro stack file spelled acc hchain hself hin hvis hE
+    have hbroken : ∀ (h : visitOrder cfg fs (n + 1) stack file spelled acc = (acc.1, acc.2 ++ [.broken file])), False := by
+      intro h
+      rw [h] at hE
+      exact hE.1 file (by simp)
+    cases hf : fs.get file with
+    | none => exact (hbroken (by simp only [visitOrder, hf])).elim
+    | some fc =>
+      cases fc with
+      | ext d => exact (hbroken (by simp only [visitOrder, hf])).elim
+      | badExt => exact (hbroken (by simp only [visitOrder, hf])).elim
+      | notText pos =>
+        have hvo : visitOrder cfg fs (n + 1) stack file spelled acc = (acc.1, acc.2 ++ [.undecodable file pos]) := by
+          simp only [visitOrder, hf]
+        rw [hvo]
+        refine ⟨⟨[.undecodable file pos], rfl, fun v hv => ?_, ⟨trivial, trivial⟩, fun _ h => h⟩, fun q hq => ?_⟩
+        · simp only [List.mem_singleton] at hv; subst hv; trivial
+        · rcases hvis q hq with h | h | h
+          · simp only [List.mem_append, List.mem_singleton] at h
+            rcases h with h | h
+            · exact Or.inl h
+            · subst h; exact Or.inr (Or.inr ⟨pos, hf⟩)
+          · exact Or.inr (Or.inl (by simpa [List.filterMap_append, Visit.file?] using h))
+          · exact Or.inr (Or.inr h)
+      | idl text =>
+        cases hpt : parseText text with
+        | none => exact (hbroken (by simp only [visitOrder, hf, hpt])).elim
+        | some f =>
+          obtain ⟨loads, contents⟩ := f
+          have hvo : visitOrder cfg fs (n + 1) stack file spelled acc
+              = ((loads.foldl (visitStep cfg fs (visitOrder cfg fs n) (stack ++ [file]) spelled) acc).1,
+                 (loads.foldl (visitStep cfg fs (visitOrder cfg fs n) (stack ++ [file]) spelled) acc).2
+                   ++ [.file file spelled stack loads contents]) := by
+            simp only [visitOrder, hf, hpt]
+          rw [hvo] at hE ⊢
+          have hedge : ∀ l ∈ loads, l.isImport = true → ∀ c p, findFile cfg fs spelled (filepathText l.lit) = some (c, p) →
+              E file p := hE.2 file spelled stack loads contents (by simp)
+          obtain ⟨⟨new, e1, k1, b1, m1⟩, hv1, hl1⟩ := foldl_tree cfg fs E n ih stack file spelled hchain hself loads hedge acc hin hvis
+            hE.prefix
+          generalize loads.foldl (visitStep cfg fs (visitOrder cfg fs n) (stack ++ [file]) spelled) acc = o1 at e1 m1 hv1 hl1 ⊢
+          refine ⟨⟨new ++ [.file file spelled stack loads contents], by simp [e1], fun v hv => ?_, ?_, m1⟩, fun q hq => ?_⟩
+          · rcases List.mem_append.mp hv with h | h
+            · exact k1 v h
+            · simp only [List.mem_singleton] at h; subst h; exact ⟨hchain, hself, text, hf⟩
+          · rw [backFrom_append, ← e1]
+            refine ⟨b1, ?_, trivial⟩
+            intro l hl himp c p hfind
+            rcases hv1 p (hl1 l hl himp c p hfind) with h | h | h
+            · exact Or.inl h
+            · exact Or.inr (Or.inl h)
+            · exact Or.inr (Or.inr h)
+          · rcases hv1 q hq with h | h | h
+            · simp only [List.mem_append, List.mem_singleton] at h
+              rcases h with h | h
+              · exact Or.inl h
+              · subst h; exact Or.inr (Or.inl (by simp [List.filterMap_append, Visit.file?]))
+            · exact Or.inr (Or.inl (by simp only [List.filterMap_append, List.mem_append]; exact Or.inl h))
+            · exact Or.inr (Or.inr h)
+
+/-- the import tree from `root`: every file visit is linked to its importers by chains of `@import` lines, and the
+    targets of its `@import` lines are files being imported, files finished before, or files that are not text -/
+theorem rootVisits_tree (cfg : Cfg) (fs : FS) (root : APath) (hnb : ∀ p, Visit.broken p ∉ rootVisits cfg fs root) :
+    (∀ v ∈ rootVisits cfg fs root, NodeOk fs (ImportsTo cfg fs (rootVisits cfg fs root)) v)
+      ∧ BackFrom cfg fs [] (rootVisits cfg fs root) := by
+  have hE : EdgesIn cfg fs (ImportsTo cfg fs (rootVisits cfg fs root)) (rootVisits cfg fs root) :=
+    ⟨hnb, fun f s A loads c hv l hl himp c' p hfind => ⟨s, A, loads, c, hv, l, hl, himp, c', hfind⟩⟩
+  obtain ⟨⟨new, e1, k1, b1, _⟩, _⟩ := visitOrder_tree cfg fs (ImportsTo cfg fs (rootVisits cfg fs root)) (fs.files.length + 2)
+    [] (normPath root) root ([normPath root], []) (fun q hq => by cases hq) (SelfOk.root fs root) (by simp)
+    (fun q hq => Or.inl (by simpa using hq)) hE
+  have hnew : new = rootVisits cfg fs root := by
+    have : rootVisits cfg fs root = [] ++ new := e1
+    rw [this]; rfl
+  subst hnew
+  exact ⟨k1, b1⟩
+
+theorem backFrom_mem (cfg : Cfg) (fs : FS) (done pre : List Visit) (v : Visit) (post : List Visit)
+    (h : BackFrom cfg fs done (pre ++ v :: post)) : VisitBack cfg fs (done ++ pre) v := by
+  rw [backFrom_append] at h
+  exact h.2.1
+
+theorem importChain_head {E : APath → APath → Prop} {a b : APath} (h : ImportChain E a b) : ∃ c, E a c := by
+  induction h with
+  | single he => exact ⟨_, he⟩
+  | tail _ _ ih => exact ih
+
+/-- a line that closes a cycle lies on a cycle of the import graph, or is an `@extern` self reference -/
+theorem closesCycle_cycle (cfg : Cfg) (fs : FS) (root : APath) (hnb : ∀ p, Visit.broken p ∉ rootVisits cfg fs root)
+    (f s : APath) (A : List APath) (loads : List LoadAt) (contents : List Content)
+    (hv : Visit.file f s A loads contents ∈ rootVisits cfg fs root) (l : LoadAt) (hl : l ∈ loads)
+    (hc : ClosesCycle cfg fs A f s l) :
+    HasImportCycle cfg fs (rootVisits cfg fs root) ∨ HasExternSelf cfg fs (rootVisits cfg fs root) := by
+  obtain ⟨c, p, hfind, h⟩ := hc
+  obtain ⟨hchain, hself, _⟩ := (rootVisits_tree cfg fs root hnb).1 _ hv
+  cases himp : l.isImport with
+  | false =>
+    rcases h with h | h
+    · exact Or.inr ⟨f, s, A, loads, contents, hv, l, hl, himp, c, p, hfind, h⟩
+    · rw [himp] at h; cases h.1
+  | true =>
+    have hedge : ImportsTo cfg fs (rootVisits cfg fs root) f p := ⟨s, A, loads, contents, hv, l, hl, himp, c, hfind⟩
+    refine Or.inl ?_
+    rcases h with h | h
+    · have hp : p = f := by
+        have hs' : (c.spelledAbsolute && c.path == s) = true := h
+        simp only [Bool.and_eq_true, beq_iff_eq] at hs'
+        obtain ⟨_, _, _, _, hq⟩ := findFile_first cfg fs s _ c p hfind
+        rw [hs'.2] at hq
+        exact hself p hq
+      subst hp
+      exact ⟨p, .single hedge⟩
+    · have hm := h.2
+      simp only [List.mem_append, List.mem_singleton] at hm
+      rcases hm with hm | hm
+      · exact ⟨p, .tail (hchain p hm) hedge⟩
+      · subst hm; exact ⟨p, .single hedge⟩
+
+/-- without a line that closes a cycle, every edge of the import graph leads to a file finished earlier (or to a file
+    that is not text) -/
+theorem edge_back (cfg : Cfg) (fs : FS) (root : APath) (hnb : ∀ p, Visit.broken p ∉ rootVisits cfg fs root)
+    (hnd : ((rootVisits cfg fs root).filterMap Visit.file?).Nodup)
+    (hno : ∀ f s A loads contents, Visit.file f s A loads contents ∈ rootVisits cfg fs root →
+      ∀ l ∈ loads, ¬ ClosesCycle cfg fs A f s l)
+    (f p : APath) (he : ImportsTo cfg fs (rootVisits cfg fs root) f p) :
+    NotText fs p ∨ ((rootVisits cfg fs root).filterMap Visit.file?).idxOf p
+      < ((rootVisits cfg fs root).filterMap Visit.file?).idxOf f := by
+  obtain ⟨s, A, loads, contents, hv, l, hl, himp, c, hfind⟩ := he
+  obtain ⟨pre, post, hsplit⟩ := List.append_of_mem hv
+  have hb := (rootVisits_tree cfg fs root hnb).2
+  rw [hsplit] at hb hnd ⊢
+  have hvb := backFrom_mem cfg fs [] pre _ post hb
+  rcases hvb l hl himp c p hfind with h | h | h
+  · exact absurd ⟨c, p, hfind, Or.inr ⟨himp, h⟩⟩ (hno f s A loads contents hv l hl)
+  · right
+    simp only [List.nil_append] at h
+    have hF : (pre ++ Visit.file f s A loads contents :: post).filterMap Visit.file?
+        = pre.filterMap Visit.file? ++ f :: post.filterMap Visit.file? := by
+      simp [List.filterMap_append, Visit.file?]
+    rw [hF] at hnd ⊢
+    have hfn : f ∉ pre.filterMap Visit.file? := by
+      intro hm
+      exact (List.nodup_append.mp hnd).2.2 f hm f (by simp) rfl
+    rw [List.idxOf_append, List.idxOf_append, if_pos h, if_neg hfn, List.idxOf_cons_self]
+    have := List.idxOf_lt_length_of_mem h
+    omega
+  · exact Or.inl h
+
+theorem importsTo_idl (cfg : Cfg) (fs : FS) (root : APath) (hnb : ∀ p, Visit.broken p ∉ rootVisits cfg fs root)
+    (f p : APath) (he : ImportsTo cfg fs (rootVisits cfg fs root) f p) : ∃ text, fs.get f = some (.idl text) := by
+  obtain ⟨s, A, loads, contents, hv, _⟩ := he
+  exact ((rootVisits_tree cfg fs root hnb).1 _ hv).2.2
+
+/-- **A circular import is reported iff the import graph has a cycle** — the search side. Let the graph have the IDL
+    files of the import tree as nodes and an edge `f → p` whenever an `@import` line of `f` resolves to `p` (a self
+    reference counts). If nothing entered is `broken` and no IDL file is visited twice, then some load line closes a
+    cycle (`ClosesCycle`: the lines reported as circular import) iff the graph has a cycle — or an `@extern` line
+    refers to its own file (which is reported in the same way). -/
+theorem closesCycle_iff_cycle (cfg : Cfg) (fs : FS) (root : APath) (hnb : ∀ p, Visit.broken p ∉ rootVisits cfg fs root)
+    (hnd : ((rootVisits cfg fs root).filterMap Visit.file?).Nodup) :
+    (∃ f s A loads contents, Visit.file f s A loads contents ∈ rootVisits cfg fs root ∧
+        ∃ l ∈ loads, ClosesCycle cfg fs A f s l)
+      ↔ HasImportCycle cfg fs (rootVisits cfg fs root) ∨ HasExternSelf cfg fs (rootVisits cfg fs root) := by
+  constructor
+  · rintro ⟨f, s, A, loads, contents, hv, l, hl, hc⟩
+    exact closesCycle_cycle cfg fs root hnb f s A loads contents hv l hl hc
+  · rintro (⟨f, hcyc⟩ | ⟨f, s, A, loads, contents, hv, l, hl, _, c, p, hfind, hs⟩)
+    · refine Classical.byContradiction (fun hno => ?_)
+      have hno' : ∀ f s A loads contents, Visit.file f s A loads contents ∈ rootVisits cfg fs root →
+          ∀ l ∈ loads, ¬ ClosesCycle cfg fs A f s l :=
+        fun f s A loads contents hv l hl hc => hno ⟨f, s, A, loads, contents, hv, l, hl, hc⟩
+      have key : ∀ a b, ImportChain (ImportsTo cfg fs (rootVisits cfg fs root)) a b → (∃ text, fs.get b = some (.idl text)) →
+          ((rootVisits cfg fs root).filterMap Visit.file?).idxOf b < ((rootVisits cfg fs root).filterMap Visit.file?).idxOf a := by
+        intro a b hch
+        induction hch with
+        | single he =>
+          rintro ⟨text, ht⟩
+          rcases edge_back cfg fs root hnb hnd hno' _ _ he with ⟨pos, h⟩ | h
+          · rw [ht] at h; cases h
+          · exact h
+        | tail hch he ih =>
+          rintro ⟨text, ht⟩
+          have h1 := ih (importsTo_idl cfg fs root hnb _ _ he)
+          rcases edge_back cfg fs root hnb hnd hno' _ _ he with ⟨pos, h⟩ | h
+          · rw [ht] at h; cases h
+          · exact Nat.lt_trans h h1
+      obtain ⟨c, hc⟩ := importChain_head hcyc
+      exact Nat.lt_irrefl _ (key f f hcyc (importsTo_idl cfg fs root hnb _ _ hc))
+    · exact ⟨f, s, A, loads, contents, hv, l, hl, c, p, hfind, Or.inl hs⟩
+
+theorem nodup_of_map_nodup {α β : Type} (f : α → β) : ∀ l : List α, (l.map f).Nodup → l.Nodup
+  | [], _ => List.nodup_nil
+  | a :: l, h => by
+    rw [List.map_cons, List.nodup_cons] at h
+    rw [List.nodup_cons]
+    exact ⟨fun hm => h.1 (List.mem_map.mpr ⟨a, hm, rfl⟩), nodup_of_map_nodup f l h.2⟩
+
+/-- **A circular import is diagnosed iff the import graph has a cycle (C16).** Under the hypotheses of
+    `front_eq_programDiags`: the front end reports a diagnostic named `circular-import` iff the import graph reachable
+    from the root — nodes: the IDL files of the import tree, edges: `@import` lines that resolve (`findFile` under the
+    spelling the file was found under; a self reference counts) — has a cycle, or an `@extern` line refers to the file
+    that holds it. -/
+theorem front_cycle_iff (cfg : Cfg) (fs : FS) (builtins : Registry) (root : APath)
+    (hb : (builtins.map (·.key)).Nodup) (hgood : GoodV cfg (rootVisits cfg fs root))
+    (hdup : (programKeys builtins (rootVisits cfg fs root)).Nodup) :
+    ∃ ds, front cfg fs builtins root = (if ds = [] then Outcome.ok else Outcome.diags ds) ∧
+      ((∃ x ∈ ds, x.rule = "circular-import") ↔
+        HasImportCycle cfg fs (rootVisits cfg fs root) ∨ HasExternSelf cfg fs (rootVisits cfg fs root)) := by
+  obtain ⟨ds, hfront, hiff⟩ := front_circular_iff_line cfg fs builtins root hb hgood hdup
+  refine ⟨ds, hfront, hiff.trans (closesCycle_iff_cycle cfg fs root ?_ ?_)⟩
+  · intro p hp
+    exact hgood.2 _ hp
+  · exact nodup_of_map_nodup _ _ hgood.1
+
 instance (cfg : Cfg) (v : Visit) : Decidable (VisitOk cfg v) := by
   cases v <;> unfold VisitOk <;> infer_instance
 
